@@ -252,10 +252,13 @@ pub fn redex_bodies(k: usize) -> Vec<(String, &'static str)> {
         }
     }
     // skipper (only fires in @ rules; the frame supplies the rule type)
-    let strs = ["\"a\"", "\"b\"", "\"ab\"", "\"\"", "s", "lit", "nas"];
+    let strs = ["\"a\"", "\"b\"", "\"ab\"", "\"\"", "s", "lit", "nas", "lit2"];
     for a in &strs {
         v.push((format!("(!{a} ~ ANY)*"), "skip"));
         v.push((format!("(!({a}) ~ ANY)* ~ {a}"), "skip"));
+        // ... followed by something that fails where the stop matched (what the report says there)
+        v.push((format!("(!{a} ~ ANY)* ~ \"x\""), "skip"));
+        v.push((format!("(!({a} | lit2) ~ ANY)* ~ \"x\" ~ {a}?"), "skip"));
         for b in &strs {
             v.push((format!("(!({a} | {b}) ~ ANY)*"), "skip"));
             v.push((format!("(!({a} | {b}) ~ ANY)* ~ ({a} | {b})"), "skip"));
@@ -386,7 +389,7 @@ pub fn wide_grammars() -> Vec<String> {
 /// Built-in rules slice: every ASCII built-in and NEWLINE/ANY/SOI/EOI, alone, under ?, *, !, and
 /// in pairs, on inputs over a class-boundary alphabet.
 pub fn builtin_bodies() -> Vec<String> {
-    let leaves = ["ASCII_DIGIT", "ASCII_NONZERO_DIGIT", "ASCII_BIN_DIGIT", "ASCII_OCT_DIGIT", "ASCII_HEX_DIGIT", "ASCII_ALPHA_LOWER", "ASCII_ALPHA_UPPER", "ASCII_ALPHA", "ASCII_ALPHANUMERIC", "ASCII", "NEWLINE", "ANY", "SOI", "EOI"];
+    let leaves = ["ASCII_DIGIT", "ASCII_NONZERO_DIGIT", "ASCII_BIN_DIGIT", "ASCII_OCT_DIGIT", "ASCII_HEX_DIGIT", "ASCII_ALPHA_LOWER", "ASCII_ALPHA_UPPER", "ASCII_ALPHA", "ASCII_ALPHANUMERIC", "ASCII", "NEWLINE", "ANY", "SOI", "EOI", "LETTER", "UPPERCASE_LETTER"];
     let unary = [("(", ")?"), ("(", ")*"), ("!(", ")"), ("(", ")+")];
     bodies_by_size(&leaves, &unary, 3).into_iter().flatten().collect()
 }
@@ -403,6 +406,12 @@ pub fn shadowed_builtin_grammars() -> Vec<String> {
             for ty in ["", "@"] {
                 for b in bodies_by_size(&leaves, &unary, 3).into_iter().flatten() {
                     v.push(format!("{ws}{defs} r = {ty}{{ {b} }}"));
+                }
+                // the optimizer's idioms around a name the grammar has redefined
+                for n in ["NEWLINE", "ASCII_DIGIT", "LETTER"] {
+                    for b in [format!("(!{n} ~ ANY)*"), format!("(!({n} | \"1\") ~ ANY)* ~ {n}?"), format!("(!(\"1\" | {n}) ~ ANY)* ~ ANY?"), format!("({n} ~ \"a\")* ~ {n}"), format!("({n} ~ \"a\") | {n}")] {
+                        v.push(format!("{ws}{defs} r = {ty}{{ {b} }}"));
+                    }
                 }
             }
         }
@@ -445,13 +454,30 @@ pub fn long_token_cases() -> (Vec<String>, Vec<String>) {
 }
 /// Adjacent literals of every case-sensitivity and letter content (what the concatenator may fold).
 pub fn literal_pair_bodies() -> Vec<String> {
-    let lits = ["\"a\"", "^\"a\"", "\"A\"", "^\"A\"", "\"-\"", "^\"-\"", "\"a-\"", "^\"-a\""];
+    // ... and non-letters that differ by 0x20 from an input character ('-' / CR, '[' / '{'), and
+    // non-ASCII cased letters (case-insensitivity is ASCII-only)
+    let lits = ["\"a\"", "^\"a\"", "\"A\"", "^\"A\"", "\"-\"", "^\"-\"", "\"a-\"", "^\"-a\"", "^\"[a\"", "^\"\u{c9}\"", "\"\u{e9}\""];
     let mut v = vec![];
     for a in lits {
         for b in lits {
             v.push(format!("{a} ~ {b}"));
-            v.push(format!("{a} ~ {b} ~ \"a\""));
             v.push(format!("({a} ~ {b})* ~ ANY?"));
+        }
+        v.push(format!("{a} ~ ANY?"));
+    }
+    v
+}
+/// Node tags set inside sequences that fail and are absorbed (grammar-extras).
+pub fn tagged_failure_bodies() -> Vec<String> {
+    let mut v = vec![];
+    if cfg!(feature = "extras") {
+        for t in ["#t = \"a\"", "#t = (\"a\"?)", "#t = s", "(#t = \"a\") ~ (#u = \"\")"] {
+            for tail in ["\"b\"", "\"x\"", "s"] {
+                v.push(format!("s ~ ({t} ~ {tail})?"));
+                v.push(format!("s ~ ({t} ~ {tail} | \"a\")"));
+                v.push(format!("s ~ ({t} ~ {tail})* ~ ANY?"));
+                v.push(format!("s ~ !({t} ~ {tail}) ~ ANY?"));
+            }
         }
     }
     v
